@@ -66,7 +66,7 @@ def dictionary_entries() -> list[str]:
         toks += [kw.capitalize() + ":\n    ", kw.capitalize() + "\n" + "-" * len(kw) + "\n", kw]
     toks += [f":{f} " for f in G.SPHINX_FIELDS if f] + [f":{f}:" for f in G.SPHINX_FIELDS if f]
     toks += ["\n\n", "\n    ", "\n        ", "----------\n", " : ", " (int): ", ": ", ">>> ", "```", "# doctest: +SKIP", "<BLANKLINE>", ", optional", ", default ",
-             "{1, 2}", "*args", "**kw", "tuple[int, str]", "a :\n", "b :\n", ":\n"]  # fmt: skip
+             "{1, 2}", "*args", "**kw", "tuple[int, str]", "a :\n", "b :\n", ":\n", "await ", "yield ", "lambda: ", " := ", " for i in ", " if b else "]  # fmt: skip
     out = []
     for t in dict.fromkeys(toks):
         out.append('"' + "".join(ch if 32 <= ord(ch) < 127 and ch not in '"\\' else f"\\x{ord(ch):02x}" for ch in t if ord(ch) < 256) + '"')
